@@ -1512,8 +1512,10 @@ struct array : static_array<T, D, Alloc> {
 				adl_alloc_uninitialized_value_construct_n(this->alloc(), tmp.data_elements(), tmp.num_elements());
 			}
 			try {
-				auto const is = intersection(this->extensions(), tmp.extensions());  // tmp's own (possibly collapsed-to-empty) extensions: the requested ones may name a range an empty array does not have
-				tmp.apply(is) = this->apply(is);  // TODO(correaa) : use (and implement) `.move();`
+				if(!this->is_empty()) {  // an empty array has no element in common with anything, and the index ranges of its (null) base cannot be sliced
+					auto const is = intersection(this->extensions(), tmp.extensions());  // tmp's own (possibly collapsed-to-empty) extensions: the requested ones may name a range an empty array does not have
+					tmp.apply(is) = this->apply(is);  // TODO(correaa) : use (and implement) `.move();`
+				}
 			} catch(...) {
 				if constexpr(!(std::is_trivially_destructible_v<typename array::element_type> || multi::force_element_trivial_destruction<typename array::element_type>)) {
 					adl_alloc_destroy_n(this->alloc(), tmp.data_elements(), tmp.num_elements());
@@ -1556,8 +1558,10 @@ struct array : static_array<T, D, Alloc> {
 		try {  // if an element operation throws, the new block is released and *this is left as it was
 			this->uninitialized_fill_n(tmp.data_elements(), static_cast<typename multi::allocator_traits<typename array::allocator_type>::size_type>(tmp.num_elements()), elem);
 			try {
-				auto const is = intersection(this->extensions(), tmp.extensions());
-				tmp.apply(is) = this->apply(is);
+				if(!this->is_empty()) {  // see reextent(extensions)
+					auto const is = intersection(this->extensions(), tmp.extensions());
+					tmp.apply(is) = this->apply(is);
+				}
 			} catch(...) {
 				if constexpr(!(std::is_trivially_destructible_v<typename array::element_type> || multi::force_element_trivial_destruction<typename array::element_type>)) {
 					adl_alloc_destroy_n(this->alloc(), tmp.data_elements(), tmp.num_elements());
